@@ -88,6 +88,13 @@ CPull(r) ==
   /\ res' = "pull"
   /\ UNCHANGED <<hub, staged, size, made>>
 
+(* fetch alone: the remote-tracking refs follow the hub, nothing is merged, the cache serves what it served; a pull that
+   follows still merges everything that is tracked (the fetch inside it finding nothing new does not mean nothing to merge) *)
+CFetch(r) ==
+  /\ trk' = [trk EXCEPT ![r] = @ \cup hub]
+  /\ res' = "fetch"
+  /\ UNCHANGED <<have, hub, hubnew, staged, listed, indexed, fresh, size, made>>
+
 CRemove(r, b) ==
   /\ b \in listed[r]
   /\ have' = [have EXCEPT ![r] = @ \ {b}]
